@@ -1,7 +1,7 @@
 import QtyModel.Ops
 import QtyModel.Generated.Algos
 /-
-  Tie between code and model for the ALGORITHMS (the `trait Quantity` defaults used by types without reference unit).
+  Tie between code and model for the ALGORITHMS (`Quantity::{eq, partial_cmp}`, used by types without reference unit).
 
   `Generated/Algos.lean` is re-emitted from the Rust source on every run
   (tools/translate_algos.py).  Every theorem below states that the re-emitted definition IS the
@@ -16,13 +16,6 @@ variable {A U V W : Type} [DecidableEq U] [DecidableEq V] [DecidableEq W]
 variable (R : Arith A) (T : QT A U)
 
 theorem nr_eq_eq (a b : Q A U) : Quantity.eq R T a b = nrEq R a b := rfl
-
 theorem nr_partial_cmp_eq (a b : Q A U) : Quantity.partial_cmp R T a b = nrPcmp R a b := rfl
-
-theorem nr_add_eq (a b : Q A U) : Quantity.add R T a b = nrAdd R a b := rfl
-
-theorem nr_sub_eq (a b : Q A U) : Quantity.sub R T a b = nrSub R a b := rfl
-
-theorem nr_div_eq (a b : Q A U) : Quantity.div R T a b = nrDiv R a b := rfl
 
 end Qty.AlgoTie
